@@ -39,3 +39,62 @@ Theorem C18_spec_nonvacuous :
            FaFree 3; FaRealloc 0 4; FaFree 1; FaFree 4].
 Proof. exact fa_example_clean. Qed.
 Print Assumptions C18_spec_nonvacuous.
+
+(* (2) PDU layer: the builder operations with the buffer accounting of coap_pdu_check_resize /
+   coap_pdu_resize and an oracle deciding, for every allocation attempt, whether it fails. *)
+From LibcoapV Require Import Base.Bytes Wire.OptCodec Wire.Pdu Wire.Build Fault.PduAtomic
+  Fault.PduAtomicProofs.
+
+(* every operation, any failure pattern: it succeeds with the specified result (Wire/Build.v,
+   the builder C01 is proved about) or fails leaving the abstract message untouched; the only
+   exception in either direction is the implicit Hop-Limit that coap_add_option inserts before
+   a Proxy-Uri/Proxy-Scheme option and whose result the code ignores; and an operation fails
+   where the fault-free builder succeeds only if an allocation attempt made by it failed *)
+Theorem C18_pdu_atomic : forall fails n p o r p1 n1,
+  fa_inv p -> fa_apply_op fails n p o = (r, p1, n1) ->
+  fa_inv p1 /\ (n <= n1)%nat /\
+  (r = true ->
+     apply_op (fp_pdu p) o = (true, fp_pdu p1) \/
+     (exists num v, o = OpOpt num v /\ fa_hop_step (fp_pdu p) num = true /\
+                    add_opt_raw (fp_pdu p) num v = (true, fp_pdu p1))) /\
+  (r = false ->
+     fp_pdu p1 = fp_pdu p \/
+     (exists num v, o = OpOpt num v /\ fa_hop_step (fp_pdu p) num = true /\
+                    fp_pdu p1 = fa_hop_added (fp_pdu p))) /\
+  (r = false -> fst (apply_op (fp_pdu p) o) = true -> fa_failed_between fails n n1).
+Proof. exact fa_apply_op_atomic. Qed.
+Print Assumptions C18_pdu_atomic.
+
+(* coap_pdu_init gives the specified empty PDU or nothing *)
+Theorem C18_pdu_init_atomic : forall fails n ty code mid size,
+  0 <= size ->
+  match fa_pdu_init fails n ty code mid size with
+  | (Some p, n1) => fp_pdu p = pdu_init ty code mid size /\ fa_inv p /\ n1 = S (S n) /\
+                    fails n = false /\ fails (S n) = false
+  | (None, n1) => fa_max_init < size \/ fa_failed_between fails n n1
+  end.
+Proof. exact fa_pdu_init_atomic. Qed.
+Print Assumptions C18_pdu_init_atomic.
+
+(* with no failure the model is exactly the builder of Wire/Build.v, for whole op lists *)
+Theorem C18_pdu_nofault_refines : forall fails ops n p rs p1 n1,
+  (forall k, fails k = false) -> fa_inv p ->
+  fa_run_ops fails n p ops = (rs, p1, n1) ->
+  run_ops (fp_pdu p) ops = (rs, fp_pdu p1).
+Proof. exact fa_run_ops_nofault. Qed.
+Print Assumptions C18_pdu_nofault_refines.
+
+(* the growth loop of coap_pdu_check_resize always reaches the requested size (the model's
+   fuel is never exhausted) *)
+Theorem C18_grow_reaches : forall alloc size, size <= fa_first_size alloc size.
+Proof. exact fa_first_size_ge. Qed.
+Print Assumptions C18_grow_reaches.
+
+(* strict atomicity ("success = the fault-free result") is false for the implicit Hop-Limit:
+   witness replayed on the code as corpus/C18/fixed.case "fapdu ... O 35" *)
+Theorem C18_pdu_strict_atomicity_refuted :
+  exists fails n p o r p1 n1,
+    fa_inv p /\ fa_apply_op fails n p o = (r, p1, n1) /\ r = true /\
+    apply_op (fp_pdu p) o <> (true, fp_pdu p1).
+Proof. exact fa_strict_atomicity_refuted. Qed.
+Print Assumptions C18_pdu_strict_atomicity_refuted.
